@@ -14,7 +14,7 @@ RULE = ('per case one generated bundle (CRC type 0/1/2 drawn per block, 0-2 exte
         'show no delivery, forward or report, and the clean copy must then be processed exactly once. Every bundle any node transmits is '
         're-decoded and each CRC recomputed bitwise. One evaluation = one corrupt reception; distinct = (bundle digest, flip).')
 COMPONENTS = bc.COMPONENTS
-PROBES = ('flip.in_primary', 'flip.in_payload_block', 'flip.in_crc_field', 'flip.in_crc_type', 'flip.burst', 'class.malformed', 'class.crc_mismatch',
+PROBES = ('flip.octet_mask', 'flip.in_primary', 'flip.in_payload_block', 'flip.in_crc_field', 'flip.in_crc_type', 'flip.burst', 'class.malformed', 'class.crc_mismatch',
           'class.unprotected', 'out.bundles_checked')
 ASSUMPTIONS = ['a corrupted copy that still has valid CRCs everywhere (flip inside a block of CRC type 0) carries no requirement here',
                'schedules and clocks play no role: the deciding dimension is the corruption fault']
@@ -125,6 +125,11 @@ def _drive(run, plan, har):
     flips = [('bit', pos, 1) for pos in positions]
     for (pos, width) in plan['bursts']:
         flips.append(('burst', pos % max(1, nbits - width), width))
+    # bursts inside one octet that turn one well-formed CBOR head into another (unsigned 0/1 <-> false/true, array <-> byte
+    # string or map, anything -> break): corruptions a CRC must catch although the damaged item may still decode
+    for bytepos in sorted(set(pos // 8 for pos in positions)):
+        for mask in (0xf4, 0xc0, 0x20, 0xe0, None):
+            flips.append(('mask', bytepos * 8, mask))
     dec0 = rfc9171.decode_bundle(probe)
     stats = run.stats
     seqno = 1000
@@ -137,6 +142,11 @@ def _drive(run, plan, har):
         arr = bytearray(clean)
         if kind == 'bit':
             arr[pos // 8] ^= 0x80 >> (pos % 8)
+        elif kind == 'mask':
+            arr[pos // 8] = (arr[pos // 8] ^ width) if width is not None else 0xff
+            if arr[pos // 8] == clean[pos // 8]:
+                continue
+            stats['flip.octet_mask'] = stats.get('flip.octet_mask', 0) + 1
         else:
             for bit in range(pos, pos + width):
                 arr[bit // 8] ^= 0x80 >> (bit % 8)
@@ -159,7 +169,7 @@ def _drive(run, plan, har):
             klass = 'malformed'
         # requirement applies when the flip touched a CRC-protected block (a CRC detects
         # every single-bit error and every burst up to its width)
-        touched = set(range(pos // 8, (pos + width - 1) // 8 + 1))
+        touched = {pos // 8} if kind == 'mask' else set(range(pos // 8, (pos + width - 1) // 8 + 1))
         protected = False
         for blk in [dec0['primary']] + dec0['blocks']:
             if blk['crc_type'] != 0 and touched & set(range(blk['range'][0], blk['range'][1])):
@@ -169,7 +179,10 @@ def _drive(run, plan, har):
         stats['class.' + klass] = stats.get('class.' + klass, 0) + 1
         stats['evals'] += 1
         run.keys.append(bc.digest((plan['pri_crc'], plan['pay_crc'], plan['blocks'], plan['pay_len'], plan['route'], kind, pos, width)))
-        where = '%s at bit %d (+%d) of %d-octet bundle [%s]' % (kind, pos, width, len(clean), klass)
+        if kind == 'mask':
+            where = 'octet %d changed from 0x%02x to 0x%02x in a %d-octet bundle [%s]' % (pos // 8, clean[pos // 8], corrupt[pos // 8], len(clean), klass)
+        else:
+            where = '%s at bit %d (+%d) of %d-octet bundle [%s]' % (kind, pos, width, len(clean), klass)
         if klass == 'unprotected':
             # no requirement; such a copy may be accepted under an arbitrary identity and would
             # contaminate the identities used by later flips
